@@ -389,7 +389,16 @@ class Ref(object):
       # the other legal wire form: ignored fields not wildcarded, set to 0
       wire_m = dict(m, wildcards=W.ignored_fields_cleared(m))
       sim.probes["match_ignored_fields_cleared"] += 1
-    raw = W.enc_flow_mod(xid, wire_m, st["cmd"], acts, cookie=st.get("cookie", 0),
+    fbad = st.get("fbad")
+    if fbad is not None and st["cmd"] not in (W.FC_ADD, W.FC_MODIFY,
+                                              W.FC_MODIFY_STRICT):
+      fbad = None                 # (a delete's action list is not looked at)
+    wire_acts = acts
+    if fbad is not None:
+      bad = ("raw", struct.pack("!HHL", fbad, 8, 0x2320))
+      wire_acts = acts + [bad] if st.get("fbadpos") else [bad] + acts
+    raw = W.enc_flow_mod(xid, wire_m, st["cmd"], wire_acts,
+                         cookie=st.get("cookie", 0),
                          idle=st.get("idle", 0), hard=st.get("hard", 0),
                          priority=st["prio"], buffer_id=buffer_id,
                          out_port=st.get("out_port", W.OFPP_NONE),
@@ -397,6 +406,30 @@ class Ref(object):
     self.world.take_out()
     rs = self.roundtrip(raw)
     now = sim.now
+    if fbad is not None:
+      # an action list the switch cannot carry out: refused as a whole,
+      # whatever the command and whatever else is wrong with the request;
+      # the table (compared at the next sync) and a named buffer stay
+      sim.probes["fm_unknown_action_cmd_%d" % st["cmd"]] += 1
+      errs = [d for d in rs if d["type"] == W.ERROR and d["xid"] == xid]
+      buf_err = [d for d in errs if d["etype"] == W.ET_BAD_REQUEST
+                 and d["code"] in (W.BRC_BUFFER_EMPTY, W.BRC_BUFFER_UNKNOWN)]
+      errs = [d for d in errs if d not in buf_err]
+      if len(errs) != 1 or errs[0]["etype"] != W.ET_BAD_ACTION \
+          or errs[0]["code"] != W.BAC_BAD_TYPE \
+          or len(rs) != len(errs) + len(buf_err):
+        raise Deviation(("C04", "C13"), "flow-mod/unknown-action-not-refused",
+                        "flow_mod cmd=%d with an action of type %#x the "
+                        "switch does not implement was answered with %r "
+                        "instead of one BAD_ACTION/BAD_TYPE error"
+                        % (st["cmd"], fbad,
+                           [(d["name"], d.get("etype"), d.get("code"))
+                            for d in rs]))
+      if buf is not None:
+        self.refused_flow_mod_buffer(buffer_id, buf_err)
+      self.no_more_packet_ins("flow_mod")
+      self.sync()
+      return
     res = self.model.flow_mod(
         {"match": m, "command": st["cmd"], "priority": st["prio"],
          "actions": acts, "cookie": st.get("cookie", 0),
